@@ -124,10 +124,65 @@ def run(chk, mp):
     return n
 
 
+def replay_unary(chk, mp, out, tagname):
+    """P records: (a, n, prec, mode, result) of mpf_pow_int; R records: (a, mode, result) of mpf_round_int"""
+    L = mp.libmp
+    n = 0
+    for raw in tlc.parse_tuples(out, "P"):
+        v = parse_value(raw)
+        x = mpf_of(*v[1:5]); nn = v[5]; p = v[6]; rnd = v[7]; want = mpf_of(*v[8:12])
+        try:
+            got = tuple(L.mpf_pow_int(x, nn, p, rnd))
+        except Exception as e:                                       # noqa: BLE001
+            got = ("exc", type(e).__name__)
+        n += 1; chk.count(); chk.distinct(("machine", tagname, "pow", x, nn, p, rnd), True)
+        if got != want:
+            chk.violation("machine/%s/pow_int" % tagname,
+                          "real mpf_pow_int disagrees with the model transition: pow_int(%r, %d, %d, %r) = %r, model %r" % (x, nn, p, rnd, got, want),
+                          {"machine": {"op": "pow_int", "x": list(x), "n": nn, "p": p, "rnd": rnd, "want": list(want)}})
+    for raw in tlc.parse_tuples(out, "R"):
+        v = parse_value(raw)
+        x = mpf_of(*v[1:5]); rnd = v[5]; want = mpf_of(*v[6:10])
+        got = tuple(L.libmpf.mpf_round_int(x, rnd))
+        n += 1; chk.count(); chk.distinct(("machine", tagname, "round_int", x, rnd), x[1] != 0)
+        if got != want:
+            chk.violation("machine/%s/round_int" % tagname,
+                          "real mpf_round_int disagrees with the model (= exact floor / ceil / nearest integer): round_int(%r, %r) = %r, model %r" % (x, rnd, got, want),
+                          {"machine": {"op": "round_int", "x": list(x), "rnd": rnd, "want": list(want)}})
+    return n
+
+
+def run_unary(chk, mp, runs):
+    """runs: list of (module, cfg, tag, replay?) -- M1 invariants in every run; M2 replay of the printed transitions where
+    the model carries the code's real constants (with scaled constants the branch taken differs, so only the invariant is meaningful)"""
+    total = 0
+    for module, cfg, tag, do_replay in runs:
+        r = tlc.run_model(module, cfg, timeout=chk.pick(900, 14400))
+        if not r["ok"]:
+            chk.machinery("%s/%s: TLC failed or invariant violated (%s)\n%s" % (module, cfg, r["violated"], r["output"][-3000:]))
+        chk.add_model(r, "%s/%s" % (module, cfg))
+        if do_replay:
+            k = replay_unary(chk, mp, r["output"], tag)
+            if k == 0:
+                chk.machinery("%s/%s printed no transitions" % (module, cfg))
+            total += k
+    chk.add_traces(total)
+    chk.notes.append("M2: %d model transitions (pow_int / round_int) replayed on the real libmp functions (identical tuples required)" % total)
+    return total
+
+
 def replay_one(mp, rec):
     L = mp.libmp
     m = rec["machine"]
-    x = tuple(m["x"]); y = tuple(m["y"])
+    x = tuple(m["x"]); y = tuple(m.get("y", ()))
+    if m["op"] == "pow_int":
+        got = tuple(L.mpf_pow_int(tuple(m["x"]), m["n"], m["p"], m["rnd"])); want = tuple(m["want"])
+        print("transition:", m); print("real:", got, "model:", want)
+        return got == want
+    if m["op"] == "round_int":
+        got = tuple(L.libmpf.mpf_round_int(tuple(m["x"]), m["rnd"])); want = tuple(m["want"])
+        print("transition:", m); print("real:", got, "model:", want)
+        return got == want
     if m["op"] == "cmp":
         got = L.mpf_cmp(x, y); want = m["want"]
     else:
